@@ -1,9 +1,281 @@
-import CCT.Lemmas.JsonParseSer
-/-! # C07 — canonical serialization (theorems; work in progress) -/
+import CCT.Lemmas.Canon
+/-!
+# C07 — canonical serialization: deterministic, order-independent, injective, frozen
+
+`ser v = serRaw 0 (canon v)` is the model of `canonserialize` (`json.dumps(obj, indent=2, sort_keys=True)
+.encode("utf-8")`), `parse` the model of `json.loads`.  `J.WF` is the value domain of the property: what a
+parser of well-formed JSON text can return (code points < 0x110000, no high surrogate immediately followed
+by a low one, distinct keys, canonical float tokens).
+-/
 namespace CCT.C07
 open CCT
 
-/-- parsing the printed form of a well-formed value (no key sorting) returns the value -/
-theorem parse_serRaw_wf (v : J) (hv : v.WF) : parse (serRaw 0 v) = some v := CCT.parse_serRaw v hv
+/-- **parsing gives the value back**: the canonical bytes parse, and to the key-sorted form of the value -/
+theorem parse_ser (v : J) (hv : v.WF) : parse (ser v) = some (canon v) :=
+  parse_serRaw (canon v) (canon_wf v hv)
+
+/-- **fixpoint of parse-then-serialize** -/
+theorem ser_fixpoint (v : J) (hv : v.WF) : (parse (ser v)).map ser = some (ser v) := by
+  rw [parse_ser v hv]
+  simp only [Option.map_some, ser, canon_idem v hv]
+
+theorem ser_canon (v : J) (hv : v.WF) : ser (canon v) = ser v := by
+  simp only [ser, canon_idem v hv]
+
+/-- **injective**: two values with the same canonical bytes have the same key-sorted form (see `reorder_canon`:
+each is then a mere re-ordering of object members of that common form, i.e. they are equal as JSON values) -/
+theorem ser_injective (v w : J) (hv : v.WF) (hw : w.WF) (h : ser v = ser w) : canon v = canon w := by
+  have h1 := parse_ser v hv
+  have h2 := parse_ser w hw
+  rw [h] at h1
+  rw [h1] at h2
+  exact Option.some.inj h2
+
+-- order independence --------------------------------------------------------------------------------
+
+mutual
+/-- `Reorder v w`: `w` is `v` with the members of any objects, at any depth, listed in another order -/
+def Reorder : J → J → Prop
+  | .null, w => w = .null
+  | .bool b, w => w = .bool b
+  | .int z, w => w = .int z
+  | .flt t, w => w = .flt t
+  | .str s, w => w = .str s
+  | .arr xs, w => ∃ ys, w = .arr ys ∧ ReorderL xs ys
+  | .obj kvs, w => ∃ kvs' kvs'', w = .obj kvs'' ∧ ReorderM kvs kvs' ∧ kvs'.Perm kvs''
+def ReorderL : List J → List J → Prop
+  | [], ys => ys = []
+  | x :: xs, ys => ∃ y ys', ys = y :: ys' ∧ Reorder x y ∧ ReorderL xs ys'
+def ReorderM : List (PStr × J) → List (PStr × J) → Prop
+  | [], l => l = []
+  | (k, v) :: r, l => ∃ v' r', l = (k, v') :: r' ∧ Reorder v v' ∧ ReorderM r r'
+end
+
+theorem canonMembers_eq_map (l : List (PStr × J)) : canonMembers l = l.map (fun p => (p.1, canon p.2)) := by
+  induction l with
+  | nil => rfl
+  | cons p r ih => obtain ⟨k, v⟩ := p; simp [canonMembers, ih]
+
+mutual
+theorem canon_reorder (v w : J) (hv : v.WF) (h : Reorder v w) : canon v = canon w := by
+  match v with
+  | .null => simp only [Reorder] at h; rw [h]
+  | .bool _ => simp only [Reorder] at h; rw [h]
+  | .int _ => simp only [Reorder] at h; rw [h]
+  | .flt _ => simp only [Reorder] at h; rw [h]
+  | .str _ => simp only [Reorder] at h; rw [h]
+  | .arr xs =>
+    simp only [Reorder] at h
+    obtain ⟨ys, rfl, hl⟩ := h
+    simp only [J.WF] at hv
+    simp only [canon, canonList_reorder xs ys hv hl]
+  | .obj kvs =>
+    simp only [Reorder] at h
+    obtain ⟨kvs', kvs'', rfl, hm, hp⟩ := h
+    simp only [J.WF] at hv
+    have ⟨e1, e2⟩ := canonMembers_reorder kvs kvs' hv.1 hm
+    simp only [canon]
+    rw [e1]
+    congr 1
+    apply sortKV_congr_perm
+    · rw [canonMembers_eq_map, canonMembers_eq_map]; exact hp.map _
+    · rw [canonMembers_keys, ← e2]; exact hv.2
+theorem canonList_reorder (xs ys : List J) (hx : WFs xs) (h : ReorderL xs ys) : canonList xs = canonList ys := by
+  match xs with
+  | [] => simp only [ReorderL] at h; rw [h]
+  | x :: r =>
+    simp only [ReorderL] at h
+    obtain ⟨y, ys', rfl, h1, h2⟩ := h
+    simp only [WFs] at hx
+    simp only [canonList, canon_reorder x y hx.1 h1, canonList_reorder r ys' hx.2 h2]
+theorem canonMembers_reorder (l l' : List (PStr × J)) (hl : WFm l) (h : ReorderM l l') :
+    canonMembers l = canonMembers l' ∧ l.map (·.1) = l'.map (·.1) := by
+  match l with
+  | [] => simp only [ReorderM] at h; rw [h]; exact ⟨rfl, rfl⟩
+  | (k, v) :: r =>
+    simp only [ReorderM] at h
+    obtain ⟨v', r', rfl, h1, h2⟩ := h
+    simp only [WFm] at hl
+    have ⟨e1, e2⟩ := canonMembers_reorder r r' hl.2.2 h2
+    exact ⟨by simp only [canonMembers, canon_reorder v v' hl.2.1 h1, e1], by simp [e2]⟩
+end
+
+/-- **order-independent**: listing object members in any other order, at any depth, leaves the bytes unchanged -/
+theorem ser_reorder (v w : J) (hv : v.WF) (h : Reorder v w) : ser v = ser w := by
+  simp only [ser, canon_reorder v w hv h]
+
+mutual
+/-- every value is a member re-ordering of its canonical form -/
+theorem reorder_canon (v : J) : Reorder v (canon v) := by
+  match v with
+  | .null => simp [Reorder, canon]
+  | .bool _ => simp [Reorder, canon]
+  | .int _ => simp [Reorder, canon]
+  | .flt _ => simp [Reorder, canon]
+  | .str _ => simp [Reorder, canon]
+  | .arr xs => simp only [Reorder, canon]; exact ⟨_, rfl, reorderL_canon xs⟩
+  | .obj kvs =>
+    simp only [Reorder, canon]
+    exact ⟨canonMembers kvs, _, rfl, reorderM_canon kvs, (sortKV_perm _).symm⟩
+theorem reorderL_canon (xs : List J) : ReorderL xs (canonList xs) := by
+  match xs with
+  | [] => simp [ReorderL, canonList]
+  | x :: r => simp only [ReorderL, canonList]; exact ⟨_, _, rfl, reorder_canon x, reorderL_canon r⟩
+theorem reorderM_canon (l : List (PStr × J)) : ReorderM l (canonMembers l) := by
+  match l with
+  | [] => simp [ReorderM, canonMembers]
+  | (k, v) :: r => simp only [ReorderM, canonMembers]; exact ⟨_, _, rfl, reorder_canon v, reorderM_canon r⟩
+end
+
+-- the wire format ---------------------------------------------------------------------------------------
+
+def Asc (b : Nat) : Prop := b = 10 ∨ (32 ≤ b ∧ b < 127)
+def AllAsc (l : Txt) : Prop := ∀ b ∈ l, Asc b
+
+theorem allAsc_nil : AllAsc [] := fun _ h => by cases h
+theorem allAsc_cons {b : Nat} {l : Txt} (hb : Asc b) (hl : AllAsc l) : AllAsc (b :: l) := by
+  intro x hx; rcases List.mem_cons.mp hx with rfl | hx; exact hb; exact hl x hx
+theorem allAsc_append {a b : Txt} (ha : AllAsc a) (hb : AllAsc b) : AllAsc (a ++ b) := by
+  intro x hx; rcases List.mem_append.mp hx with h | h; exact ha x h; exact hb x h
+
+theorem asc_hexDigit (d : Nat) (h : d < 16) : Asc (hexDigit d) := by
+  unfold hexDigit Asc; split <;> omega
+
+theorem allAsc_uesc (n : Nat) : AllAsc (uesc n) := by
+  unfold uesc hex4
+  refine allAsc_cons (by unfold Asc; decide) (allAsc_cons (by unfold Asc; omega) ?_)
+  exact allAsc_cons (asc_hexDigit _ (Nat.mod_lt _ (by decide))) (allAsc_cons (asc_hexDigit _ (Nat.mod_lt _ (by decide)))
+    (allAsc_cons (asc_hexDigit _ (Nat.mod_lt _ (by decide))) (allAsc_cons (asc_hexDigit _ (Nat.mod_lt _ (by decide))) allAsc_nil)))
+
+theorem allAsc_escChar (c : Nat) : AllAsc (escChar c) := by
+  unfold escChar
+  repeat' split
+  all_goals first
+    | exact allAsc_uesc _
+    | exact allAsc_append (allAsc_uesc _) (allAsc_uesc _)
+    | (intro b hb; simp only [List.mem_cons, List.mem_nil_iff, or_false, cBsl] at hb; unfold Asc; omega)
+
+theorem allAsc_escStr : ∀ (s : PStr), AllAsc (escStr s)
+  | [] => allAsc_nil
+  | c :: r => allAsc_append (allAsc_escChar c) (allAsc_escStr r)
+
+theorem allAsc_serStr (s : PStr) : AllAsc (serStr s) :=
+  allAsc_cons (by unfold Asc; decide) (allAsc_append (allAsc_escStr s) (allAsc_cons (by unfold Asc; decide) allAsc_nil))
+
+theorem asc_of_numChar {c : Nat} (h : isNumChar c = true) : Asc c := by
+  simp [isNumChar, isDigit] at h
+  unfold Asc; omega
+
+theorem allAsc_serInt (z : Int) : AllAsc (serInt z) := fun c hc => asc_of_numChar ((parseNumTok_serInt z).2 c hc)
+
+theorem allAsc_serFlt (t : Txt) (h : FltOK t) : AllAsc (serFlt t) := by
+  rcases h with rfl | rfl | rfl | ⟨h1, _⟩
+  · intro b hb; simp [serFlt] at hb; unfold Asc; omega
+  · intro b hb; simp [serFlt] at hb; unfold Asc; omega
+  · intro b hb; simp [serFlt] at hb; unfold Asc; omega
+  · rw [serFlt_ord t h1]; exact fun c hc => asc_of_numChar (h1 c hc)
+
+theorem allAsc_nl (n : Nat) : AllAsc (nl n) := by
+  intro b hb
+  simp only [nl, List.mem_cons, List.mem_replicate] at hb
+  rcases hb with rfl | ⟨_, rfl⟩
+  · left; rfl
+  · right; unfold cSp; omega
+
+mutual
+theorem allAsc_serRaw (lvl : Nat) (v : J) (hv : v.WF) : AllAsc (serRaw lvl v) := by
+  match v with
+  | .null => intro b hb; simp [serRaw] at hb; unfold Asc; omega
+  | .bool true => intro b hb; simp [serRaw] at hb; unfold Asc; omega
+  | .bool false => intro b hb; simp [serRaw] at hb; unfold Asc; omega
+  | .int z => exact allAsc_serInt z
+  | .flt t => exact allAsc_serFlt t hv
+  | .str s => exact allAsc_serStr s
+  | .arr [] => intro b hb; simp [serRaw, cLB, cRB] at hb; unfold Asc; omega
+  | .arr (x :: xs) =>
+    simp only [J.WF, WFs] at hv
+    simp only [serRaw]
+    exact allAsc_cons (by unfold Asc; decide) (allAsc_append (allAsc_nl _) (allAsc_append (allAsc_serRaw _ x hv.1) (allAsc_serElems lvl xs hv.2)))
+  | .obj [] => intro b hb; simp [serRaw, cLC, cRC] at hb; unfold Asc; omega
+  | .obj ((k, v) :: kvs) =>
+    simp only [J.WF, WFm] at hv
+    simp only [serRaw]
+    exact allAsc_cons (by unfold Asc; decide) (allAsc_append (allAsc_nl _) (allAsc_append (allAsc_serStr k)
+      (allAsc_cons (by unfold Asc; decide) (allAsc_cons (by unfold Asc; decide)
+        (allAsc_append (allAsc_serRaw _ v hv.1.2.1) (allAsc_serMembers lvl kvs hv.1.2.2))))))
+theorem allAsc_serElems (lvl : Nat) (xs : List J) (h : WFs xs) : AllAsc (serElems lvl xs) := by
+  match xs with
+  | [] => simp only [serElems]; exact allAsc_append (allAsc_nl _) (allAsc_cons (by unfold Asc; decide) allAsc_nil)
+  | x :: r =>
+    simp only [WFs] at h
+    simp only [serElems]
+    exact allAsc_cons (by unfold Asc; decide) (allAsc_append (allAsc_nl _) (allAsc_append (allAsc_serRaw _ x h.1) (allAsc_serElems lvl r h.2)))
+theorem allAsc_serMembers (lvl : Nat) (kvs : List (PStr × J)) (h : WFm kvs) : AllAsc (serMembers lvl kvs) := by
+  match kvs with
+  | [] => simp only [serMembers]; exact allAsc_append (allAsc_nl _) (allAsc_cons (by unfold Asc; decide) allAsc_nil)
+  | (k, v) :: r =>
+    simp only [WFm] at h
+    simp only [serMembers]
+    exact allAsc_cons (by unfold Asc; decide) (allAsc_append (allAsc_nl _) (allAsc_append (allAsc_serStr k)
+      (allAsc_cons (by unfold Asc; decide) (allAsc_cons (by unfold Asc; decide)
+        (allAsc_append (allAsc_serRaw _ v h.2.1) (allAsc_serMembers lvl r h.2.2))))))
+end
+
+/-- **ASCII-escaped**: the serialization consists of newline and printable ASCII only, so its UTF-8 encoding is
+the byte string with the same codes -/
+theorem ser_ascii (v : J) (hv : v.WF) : ∀ b ∈ ser v, b = 10 ∨ (32 ≤ b ∧ b < 127) :=
+  allAsc_serRaw 0 (canon v) (canon_wf v hv)
+
+/-- **keys sorted**: in the serialized value every object lists its members in strictly increasing code-point order -/
+theorem ser_sorted (v : J) (hv : v.WF) : (canon v).Sorted := canon_sorted v hv
+
+-- the published format, pinned by equations (two-space indentation, ',' and ': ' separators, escapes) ----------
+theorem fmt_empty_obj (lvl : Nat) : serRaw lvl (.obj []) = ps! "{}" := rfl
+theorem fmt_empty_arr (lvl : Nat) : serRaw lvl (.arr []) = ps! "[]" := rfl
+theorem fmt_obj (lvl : Nat) (k : PStr) (v : J) (r : List (PStr × J)) :
+    serRaw lvl (.obj ((k, v) :: r)) =
+      ps! "{" ++ (10 :: List.replicate (2 * (lvl + 1)) 32) ++ serStr k ++ ps! ": " ++ serRaw (lvl + 1) v ++ serMembers lvl r := by
+  simp [serRaw, nl, cLC, cNl, cSp, cColon]
+theorem fmt_member (lvl : Nat) (k : PStr) (v : J) (r : List (PStr × J)) :
+    serMembers lvl ((k, v) :: r) =
+      ps! "," ++ (10 :: List.replicate (2 * (lvl + 1)) 32) ++ serStr k ++ ps! ": " ++ serRaw (lvl + 1) v ++ serMembers lvl r := by
+  simp [serMembers, nl, cComma, cNl, cSp, cColon]
+theorem fmt_obj_close (lvl : Nat) : serMembers lvl [] = (10 :: List.replicate (2 * lvl) 32) ++ ps! "}" := by
+  simp [serMembers, nl, cRC, cNl, cSp]
+theorem fmt_arr (lvl : Nat) (x : J) (r : List J) :
+    serRaw lvl (.arr (x :: r)) = ps! "[" ++ (10 :: List.replicate (2 * (lvl + 1)) 32) ++ serRaw (lvl + 1) x ++ serElems lvl r := by
+  simp [serRaw, nl, cLB, cNl, cSp]
+theorem fmt_elem (lvl : Nat) (x : J) (r : List J) :
+    serElems lvl (x :: r) = ps! "," ++ (10 :: List.replicate (2 * (lvl + 1)) 32) ++ serRaw (lvl + 1) x ++ serElems lvl r := by
+  simp [serElems, nl, cComma, cNl, cSp]
+theorem fmt_arr_close (lvl : Nat) : serElems lvl [] = (10 :: List.replicate (2 * lvl) 32) ++ ps! "]" := by
+  simp [serElems, nl, cRB, cNl, cSp]
+theorem fmt_escape_ascii (c : Nat) (h : 32 ≤ c ∧ c < 127) (h1 : c ≠ 34) (h2 : c ≠ 92) : escChar c = [c] := by
+  unfold escChar
+  rw [if_neg h1, if_neg h2, if_neg (by omega), if_neg (by omega), if_neg (by omega), if_neg (by omega), if_neg (by omega), if_pos h]
+theorem fmt_escape_bmp (c : Nat) (h : 127 ≤ c) (h2 : c < 0x10000) :
+    escChar c = ps! "\\u" ++ [hexDigit (c / 4096 % 16), hexDigit (c / 256 % 16), hexDigit (c / 16 % 16), hexDigit (c % 16)] := by
+  unfold escChar
+  rw [if_neg (by omega), if_neg (by omega), if_neg (by omega), if_neg (by omega), if_neg (by omega), if_neg (by omega), if_neg (by omega),
+    if_neg (by omega), if_pos h2]
+  rfl
+theorem fmt_escape_astral (c : Nat) (h : 0x10000 ≤ c) :
+    escChar c = uesc (0xd800 + (c - 0x10000) / 1024) ++ uesc (0xdc00 + (c - 0x10000) % 1024) := by
+  unfold escChar
+  rw [if_neg (by omega), if_neg (by omega), if_neg (by omega), if_neg (by omega), if_neg (by omega), if_neg (by omega), if_neg (by omega),
+    if_neg (by omega), if_neg (by omega)]
+
+-- byte-for-byte examples from the published samples (tests/test_common.py) and the encoding cases it leaves as TODO
+example : ser (.obj [(ps! "b", .str (ps! "v2")), (ps! "a", .str (ps! "v1"))]) = ps! "{\n  \"a\": \"v1\",\n  \"b\": \"v2\"\n}" := by decide
+example : ser (.arr [.int 1, .int 2, .int 3]) = ps! "[\n  1,\n  2,\n  3\n]" := by decide
+example : ser (.str [233, 0x1F600, 0xd800, 10]) = ps! "\"\\u00e9\\ud83d\\ude00\\ud800\\n\"" := by decide
+example : ser (.arr [.flt (ps! "1e+22"), .flt (ps! "nan"), .flt (ps! "-inf"), .null, .bool true, .int (-20)])
+    = ps! "[\n  1e+22,\n  NaN,\n  -Infinity,\n  null,\n  true,\n  -20\n]" := by decide
+/-- why the value domain excludes an adjacent (high, low) surrogate pair: it prints like the astral character -/
+example : ser (.str [0xd800, 0xdc00]) = ser (.str [0x10000]) := by decide
+/-- the hypotheses are satisfiable by a non-trivial value -/
+example : (J.obj [(ps! "b", .arr [.int 1, .flt (ps! "1.5")]), (ps! "a", .obj [([233], .null)])]).WF := by
+  have hf : FltOK (ps! "1.5") := Or.inr (Or.inr (Or.inr ⟨by decide, rfl⟩))
+  simp [J.WF, WFm, WFs, StrOK, hf]
 
 end CCT.C07
